@@ -15,8 +15,8 @@ REQUIRED_THEOREMS = ["Sonic.Props.C06." + n for n in ["C06_stack_grow", "C06_wri
                                                          "C06_quote_decode", "C06_scan_uint", "C06_scan_sint", "C06_render_valid", "C06_roundtrip",
                                                          "C06_roundtrip_noReals", "C06_reserialize", "C06_end_to_end", "C06_ftoaModel_facts", "C06_cfgOK_model",
                                                          "C06_render_valid_model", "C06_roundtrip_model", "C06_reserialize_model", "C06_end_to_end_model"]]
-CONFIGS = [("avx2", "prod"), ("sse", "prod"), ("avx2", "san"), ("sse", "san")]
-CONFIGS_THOROUGH = CONFIGS + [("dyn", "prod")]
+CONFIGS = [("avx2", "prod"), ("sse", "prod"), ("avx2", "san"), ("sse", "san"), ("dyn", "prod")]
+CONFIGS_THOROUGH = CONFIGS + [("dyn", "san")]
 RULE = ("documents: generator output (empty/nested containers, scalar roots of every kind, duplicate keys, numbers of every kind, strings with "
         "escapes and high bytes), strings of every length 0..200 and documents sized so that the free space before a string is around the "
         "6n+35 growth threshold, doubles from the C07 generator; write buffers with initial capacity 0,1,8,64,256,4096 and reused 0..2 times "
